@@ -588,12 +588,17 @@ func runE2EInner(c *E2ECase, res *E2EResult) {
 				type opt struct {
 					p *parked
 					f bool
+					k string
 				}
 				var opts []opt
 				for _, p := range ps {
-					opts = append(opts, opt{p, false})
+					opts = append(opts, opt{p, false, ""})
 					if cl, _ := classify(p.ex); strings.HasPrefix(cl, "idx-") && faults < c.MaxFaults {
-						opts = append(opts, opt{p, true})
+						opts = append(opts, opt{p, true, ""})
+						if cl == "idx-put" || cl == "idx-del" {
+							// the PUT / DELETE takes effect and is answered 500 (EPutLost / EDelLost of the model)
+							opts = append(opts, opt{p, true, "lost"})
+						}
 					}
 				}
 				ch := 0
@@ -605,7 +610,7 @@ func runE2EInner(c *E2ECase, res *E2EResult) {
 				if ch >= len(opts) {
 					ch = 0
 				}
-				pick, fail = opts[ch].p, opts[ch].f
+				pick, fail, fkind = opts[ch].p, opts[ch].f, opts[ch].k
 			} else if !followed {
 				pick = ps[sched.Intn(len(ps))]
 				cl, _ := classify(pick.ex)
@@ -613,7 +618,7 @@ func runE2EInner(c *E2ECase, res *E2EResult) {
 					fail = true
 					if c.FaultKinds {
 						switch {
-						case cl == "idx-put" && sched.Chance(1, 3):
+						case (cl == "idx-put" || cl == "idx-del") && sched.Chance(1, 3):
 							fkind = "lost"
 						case cl == "idx-del" && sched.Chance(1, 3):
 							fkind = "404"
@@ -631,7 +636,8 @@ func runE2EInner(c *E2ECase, res *E2EResult) {
 			ev := Event{N: len(res.Events), Round: rd, Class: cl, Subject: s, Fail: fail}
 			fmt.Sscanf(pick.ex.Op, "%d", &ev.Op)
 			if cl == "idx-put" {
-				if !fail {
+				if !fail || fkind == "lost" {
+					// a lost response: the registry stored the index although the client saw 500
 					everIdx[s] = append(everIdx[s], digest.FromBytes(pick.ex.Body))
 				}
 				var idx ocispec.Index
